@@ -1800,6 +1800,18 @@ func (w *VerifWorld) opPiece(p *verifPeer, m map[string]string) string {
 		w.dead = true
 		return "hang"
 	}
+	if m["hangup"] == "1" {
+		// the peer hangs up right after the block: the disconnect is queued for the loop while the hash verdict
+		// (and write) of a piece this block may have completed is still on its way; which of the two the loop
+		// handles first is up to the scheduler, the resulting state must be the same
+		select {
+		case w.t.peerDisconnectedC <- p.pe:
+		case <-time.After(5 * time.Second):
+			w.dead = true
+			return "hang"
+		}
+		return "hungup " + w.observeAfterSettle()
+	}
 	return w.observeAfterSettle()
 }
 
